@@ -539,9 +539,22 @@ def quoted_atoms(cfg):
         ("dash-not-continuation", "a - b"), ("dash-end", "ab-"), ("vt-ff", "a\vb\fc"), ("only-space", " "),
         ("unclosed-comment", "/* open"), ("slash-star", "*/"), ("backslash", "C:\\dir\\n"), ("latin1", "caf\u00e9"),
     ]
+    # dash line-continuation with every line-end kind and 0..3 spacing characters of indentation; folding of every
+    # format effector between words (ODL-family decoders: continuation removed / one space; PVL: text kept as written)
+    le_names = (("\n", "nl"), ("\r\n", "crlf"), ("\r", "cr"), ("\f", "ff"), ("\v", "vt"))
+    for le, ln in le_names:
+        for ind, iname in (("", "0"), (" ", "1sp"), ("\t", "1tab"), ("   ", "3sp"), (" \t ", "sp-tab-sp")):
+            bodies.append((f"dash-continuation:{ln}:indent-{iname}", f"tem-{le}{ind}perature"))
+        bodies.append((f"dash-continuation:{ln}:twice", f"a-{le}  b-{le}c d"))
+        bodies.append((f"fold:{ln}", f"two{le}words"))
+        bodies.append((f"fold:{ln}:spaced", f"two {le} words"))
+        bodies.append((f"fold:{ln}:doubled-indented", f"two{le}{le}\t  words"))
+        bodies.append((f"fold:{ln}:leading-trailing", f"{le}two words{le}"))
     out = []
     for q, ql, other in (('"', "dq", "'"), ("'", "sq", '"')):
         for lab, body in bodies:
+            if ql == "sq" and lab.startswith(("dash-continuation:", "fold:")) and not lab.endswith(("indent-3sp", "fold:crlf", ":twice")):
+                continue                       # the second quote character only for a few of the line-end bodies
             if body is None:
                 body = f"it{other}s {other}x{other}"
             if lab == "latin1" and cfg in ("ODL", "PDS3"):
